@@ -23,6 +23,7 @@ EXPLANATION = (
     "(finiteness, sanitizer dominance): every set_frequency / step_clock call of either filter has a constant "
     "argument, an argument that is fixed-point Duration arithmetic only, or is reached only under an is_finite() "
     "literal on the value the argument is computed from."
+    ' SERVO-10 (= C08 ROLE-8): the port state changes only through set_forced_port_state, the place that replaces and demobilizes the servo.'
 )
 NOT_DECIDED = ("the numerics behind the commands: whether the filter state itself stays finite, the value of the bound "
                "check under f64 rounding (cur + (bound - cur) can exceed the bound by one ulp), the magnitude of a step")
